@@ -1117,7 +1117,8 @@ def check(r):
             r.coqchk('Props/C18.v')
     # the driver calls falsify() only when no violation at all was recorded; known findings are
     # always recorded here, so call it ourselves when something broke and nothing concrete is known
-    if r.breaks and nreal == 0:
+    if r.breaks and nreal == 0 and not getattr(r, 'falsified', False):
+        r.falsified = True          # the newer driver does this itself; do not run the search twice
         r.log("something broke: running the falsifier on the implementation ...")
         falsify(r, _SEEN)
 
